@@ -205,3 +205,82 @@ def program_sources(ctx, rnd, n, layouts=('tight', 'spaced', 'lines', 'comments'
         if src:
             out.append(('gen%d/%s' % (k, lay), src))
     return out
+
+
+# ---------------------------------------------------------------------------------------------
+# wide programs: concatenations of generated behaviours with the identifiers re-drawn from a large
+# pool (dozens of distinct names, one-letter / generated-looking names first seen late), so that
+# the populations also contain programs with hundreds of tokens and more names than there are
+# one-letter short names. Token structure, depths, line scopes and the derivation all come from
+# the generated parts (a chunk's derivation is Chunk St.. StEnd: parts without a top-level return
+# concatenate by dropping the StEnd / Chunk at the seam).
+_WORDS = [b'alpha', b'beta', b'gamma', b'delta', b'epsilon', b'zeta', b'eta', b'theta', b'iota', b'kappa', b'lambda', b'mu', b'nu', b'xi',
+          b'omicron', b'pi', b'rho', b'sigma', b'tau', b'upsilon', b'phi', b'chi', b'psi', b'omega', b'north', b'south', b'east', b'west',
+          b'player', b'enemy', b'score', b'lives', b'level', b'timer', b'speed', b'shots', b'walls', b'stars', b'cam_x', b'cam_y', b'_dx', b'_dy',
+          b'Alpha', b'BETA', b'x1', b'x2', b'y_1', b'\x8balpha', b'\xefx', b'\xbbshot', b'\xbf', b'\x80', b'\xffz', b'e9', b'E', b'f0', b'b1']
+
+
+def name_pool(rnd, size):
+    shorts = [bytes([c]) for c in b'abcdefghijklmnopqrstuvwxyz']
+    twos = [bytes([a, b]) for a in b'abc' for b in b'abcdz']
+    longs = list(_WORDS)
+    rnd.shuffle(shorts)
+    rnd.shuffle(twos)
+    rnd.shuffle(longs)
+    nl = min(len(longs), max(size * 2 // 3, 1))
+    style = rnd.randrange(3)
+    if style == 0:      # long names first, short ones first seen late
+        order = longs[:nl] + shorts[:max(size - nl, 3)] + twos[:4]
+    elif style == 1:    # mixed
+        order = longs[:nl] + shorts[:max(size - nl, 3)] + twos[:4]
+        rnd.shuffle(order)
+    else:               # short ones first
+        order = shorts[:max(size - nl, 3)] + twos[:4] + longs[:nl]
+    return order
+
+
+def wide_set(ctx, n):
+    """cached ('wide', behaviours) set for the program-level drivers"""
+    key = ('wide', n, ctx.seed)
+    if key not in _cache:
+        import random
+        _cache[key] = wide(ctx, random.Random(ctx.seed * 7919 + n), n)
+    return ('wide', _cache[key])
+
+
+def wide(ctx, rnd, n, min_toks=120, max_toks=420, pool_sizes=(12, 30, 45, 70), sources=None):
+    """n wide behaviours {'toks', 'deriv', 'names'}"""
+    parts = sources or [b for b in generate(ctx, 'all', 5) + generate(ctx, 'shortif', 13) if real_tokens(b)]
+    parts = [b for b in parts if b['deriv'] and b['deriv'][-1] == 'StEnd' and b['deriv'][0] == 'Chunk'
+             and not any(t['t'] in ('Label', 'k:goto', 'k:return') for t in b['toks']) and render(b, 'spaced') is not None]
+    out = []
+    for i in range(n):
+        target = rnd.randrange(min_toks, max_toks)
+        order = name_pool(rnd, pool_sizes[i % len(pool_sizes)])
+        seen = []
+        nxt = 0
+        toks = []
+        deriv = ['Chunk']
+        nreal = 0
+        k = 0
+        while nreal < target or (nxt < len(order) and nreal < 3 * max_toks):
+            b = parts[rnd.randrange(len(parts))]
+            k += 1
+            for t in b['toks']:
+                t = dict(t)
+                t['s'] = [k * 1000 + x for x in t['s']]
+                if t['t'] == 'Name':
+                    if nxt < len(order) and (not seen or rnd.randrange(2) == 0):
+                        w = order[nxt]
+                        nxt += 1
+                        seen.append(w)
+                    else:
+                        w = seen[rnd.randrange(len(seen))]
+                    t['w'] = list(w)
+                if t['t'] != 'SB':
+                    nreal += 1
+                toks.append(t)
+            deriv += b['deriv'][1:-1]
+        deriv.append('StEnd')
+        out.append({'toks': toks, 'deriv': deriv, 'names': len(seen)})
+    return out
